@@ -451,8 +451,12 @@ func TestC08(t *testing.T) {
 
 	// (3) edit + FixFrame
 	for _, withKey := range []bool{false, true} {
-		for _, mode := range []string{"edit-message", "edit-header", "forward-then-edit"} {
+		for _, mode := range []string{"edit-message", "edit-header", "forward-then-edit", "no-edit", "edit-signature-fields"} {
 			keyRaw := r.Bytes(32)
+			inKeyRaw := keyRaw
+			if mode == "no-edit" {
+				inKeyRaw = r.Bytes(32) // a re-keying router: frames arrive signed under another key and leave signed under its own
+			}
 			var outKey *frame.V2Key
 			if withKey {
 				outKey = frame.NewV2Key(keyRaw)
@@ -479,6 +483,13 @@ func TestC08(t *testing.T) {
 						ff.SystemID ^= 0x55
 					case *frame.V2Frame:
 						ff.SystemID ^= 0x55
+					}
+				case "no-edit":
+					// nothing is changed: FixFrame alone makes the frame this node's (checksum, and signature under its key)
+				case "edit-signature-fields":
+					if ff, ok := fr.(*frame.V2Frame); ok {
+						ff.SignatureLinkID ^= 0x5A
+						ff.SignatureTimestamp += 12345
 					}
 				case "forward-then-edit":
 					// forward the frame as received first (this encodes it in place), wait until every channel
@@ -516,7 +527,7 @@ func TestC08(t *testing.T) {
 				if withKey && s.Version == 2 {
 					s.Signed, s.Incompat = true, 1
 					s.Timestamp = uint64(1000 + i)
-					ref.Seal(&s, ro.mi.Layout.CRCExtra, keyRaw)
+					ref.Seal(&s, ro.mi.Layout.CRCExtra, inKeyRaw)
 				} else if withKey {
 					continue
 				}
